@@ -337,6 +337,25 @@ func checkSites(c *core.Ctx, rule string, fns []*ssa.Function) {
 					failed = nil
 				}
 			}
+			if len(failed) > 0 {
+				// a header peek written with a loop, a closure or a re-sliced cursor: every run is evaluated with concrete
+				// control (the offsets are constants on each run), and every access must lie within the buffer length that
+				// run has established
+				if root := peekRootOf(fn); root != nil {
+					if outs, whyNot := peekEvaluate(root, c.Prog.Pos); whyNot == "" {
+						clean := len(outs) > 0
+						for _, o := range outs {
+							if len(o.unsafe) > 0 {
+								clean = false
+							}
+						}
+						if clean {
+							failed = nil
+							whys = append(whys, fmt.Sprintf("all %d runs of %s evaluated with concrete control: every access within the length established", len(outs), root.Name()))
+						}
+					}
+				}
+			}
 			if len(failed) == 0 {
 				c.OK(rule, key, pos, s.instr.String()+" : "+strings.Join(whys, " | "))
 			} else {
@@ -479,4 +498,16 @@ func helperResultFacts(c *core.Ctx) func(call *ssa.Call, res prover.Lin) ([]prov
 		}
 		return always, when
 	}
+}
+
+// peekRootOf: fn is a PeekHeader (func(buf []byte) (Header, error)) of the module, or a closure made inside one.
+func peekRootOf(fn *ssa.Function) *ssa.Function {
+	root := fn
+	for root.Parent() != nil {
+		root = root.Parent()
+	}
+	if root.Name() != "PeekHeader" || root.Pkg == nil || !load.InModule(root.Pkg.Pkg) || len(root.Params) != 1 || root.Signature.Results().Len() != 2 {
+		return nil
+	}
+	return root
 }
